@@ -1,6 +1,7 @@
 import HecsModel.Model.WorldJudge
 import HecsModel.Model.BitsJudge
 import HecsModel.Model.BorrowJudge
+import HecsModel.Model.ContainerJudge
 /-
   `hecs_judge`: reads a trace on stdin, one request per line, answers one line per request.
 
@@ -21,6 +22,7 @@ structure JState where
   /-- the specification oracle stopped (its state is unknown after a rejected step) -/
   specDead : Bool := false
   borrow : BorrowJudge.St := {}
+  containers : ContainerJudge.CState := {}
 
 def splitArrow (line : String) : String × Option String :=
   match line.splitOn " => " with
@@ -34,9 +36,22 @@ def stepLine (st : JState) (line : String) : JState × String :=
     match line.splitOn " " with
     | _ :: eng :: _ => ({ engine := eng }, "ok")
     | _ => (st, "ERR bad history line")
-  else if line.startsWith "#" then (st, "ok")
+  else if line.startsWith "#" && !(line.startsWith "#arena" || line.startsWith "#fill") then (st, "ok")
   else
     let (lhs, rhs) := splitArrow line
+    let verb := ((lhs.trimAscii.toString.splitOn " ").headD "")
+    if (st.engine == "world" || st.engine == "sched-reserve") && ContainerJudge.isContainerVerb verb then
+      if st.diverged && st.specDead then (st, "skip") else
+      let (cs, m, ss, v) := ContainerJudge.line st.containers st.worlds st.specs lhs (rhs.getD "")
+      let st' := { st with containers := cs, worlds := m, specs := ss }
+      match v with
+      | .ok => (st', "ok")
+      | .spec _ => ({ st' with diverged := true, specDead := true }, v.render)
+      | .diff _ => if st.diverged then (st', "skip") else ({ st' with diverged := true }, v.render)
+      | .inv _ => ({ st' with diverged := true }, v.render)
+      | .err _ => ({ st' with diverged := true, specDead := true }, v.render)
+      | .advisory _ => (st', v.render)
+    else
     match st.engine with
     | "world" | "sched-reserve" =>
       -- (S) specification oracle on the implementation's own answer
